@@ -226,7 +226,7 @@ func issuedViolates(cc c09Case, subj xref.Name) (bool, []string) {
 func TestC09(t *testing.T) {
 	r := core.Start(t, "C09")
 	defer r.Finish()
-	r.Rule = "(a) exhaustive at API level: profile attribute lists of length 0..3 (quick) / 0..4 (thorough) over {C,O,2.5.4.10 (= O as dotted OID),CN,1.2.3.4} with duplicates x optional flags x allowOther, plus the nil list; subjects of length 1..4 / 1..5 over the same alphabet plus foreign {L, 2.5.4.99}; every pair is fed to config.Validate and compared with a three-valued oracle (exhaustive embedding search; UNSPECIFIED only for order among listed types under allowOther). (a2) generated at API level: lists of 5-70 entries over the 13 schema names, dotted spellings and custom OIDs with subjects built around an embedding (required entries dropped, foreign types inserted, neighbours swapped), same oracle with the embedding decided by a table that the enumeration cross-checks against plain search. (a3) the same rule through db.AddAndSign on an open database: an existing entity handed in again under a second profile must be refused (artifact untouched) or accepted as the oracle says. (b) end to end through YAML with the schema's attribute names: a rejecting profile must make the run fail with the directory unchanged, an accepting one must generate; one entity in six writes syntax beyond plain pairs into a subject component ('+O=Acme', escaped separators, …), for which only the output is judged: every certificate present after a run is decoded by the harness and the attribute types actually in it must not be ones its profile must reject. Non-trivial = MUST-accept or MUST-reject case with a non-empty list; distinct by the pair."
+	r.Rule = "(a) exhaustive at API level: profile attribute lists of length 0..3 (quick) / 0..4 (thorough) over {C,O,2.5.4.10 (= O as dotted OID),CN,1.2.3.4} with duplicates x optional flags x allowOther, plus the nil list; subjects of length 1..4 / 1..5 over the same alphabet plus foreign {L, 2.5.4.99}; every pair is fed to config.Validate and compared with a three-valued oracle (exhaustive embedding search; UNSPECIFIED only for order among listed types under allowOther). (a2) generated at API level: lists of 5-70 entries over the 13 schema names, dotted spellings and custom OIDs with subjects built around an embedding (required entries dropped, foreign types inserted, neighbours swapped), same oracle with the embedding decided by a table that the enumeration cross-checks against plain search. (a3) the same rule through db.AddAndSign on an open database: an existing entity handed in again under a second profile must be refused (artifact untouched) or accepted as the oracle says; or the profile is replaced under its name in the open database (AddProfile) after a first update and the same object plans again. (b) end to end through YAML with the schema's attribute names: a rejecting profile must make the run fail with the directory unchanged, an accepting one must generate; one entity in six writes syntax beyond plain pairs into a subject component ('+O=Acme', escaped separators, …), for which only the output is judged: every certificate present after a run is decoded by the harness and the attribute types actually in it must not be ones its profile must reject. Non-trivial = MUST-accept or MUST-reject case with a non-empty list; distinct by the pair."
 	r.Assumptions = []string{"under allowOther the order among listed attributes is not stated by the property: such cases are counted as unspecified and never fail"}
 	var unspec int
 	wrap := func(c c09Case) *core.Failure {
@@ -399,7 +399,7 @@ func TestC09(t *testing.T) {
 		return checkC09(c)
 	}
 	api := func(c c09API) *core.Failure {
-		r.Case(fmt.Sprintf("api %+v", c), "api:AddAndSign")
+		r.Case(fmt.Sprintf("api %+v", c), map[bool]string{false: "api:AddAndSign", true: "api:profile-replaced-then-replanned"}[c.Replan])
 		return checkC09API(c)
 	}
 	core.Register(r, "api", api)
@@ -530,6 +530,7 @@ func TestC09(t *testing.T) {
 		for i, n := 0, rapid.IntRange(1, 4).Draw(t, "ns"); i < n; i++ {
 			c.Subject = append(c.Subject, rapid.SampledFrom(names).Draw(t, fmt.Sprintf("s%d", i)))
 		}
+		c.Replan = rapid.IntRange(0, 2).Draw(t, "replan") == 0
 		return c
 	}, api)
 
@@ -660,6 +661,9 @@ type c09API struct {
 	Optional   []bool
 	AllowOther bool
 	Subject    []string
+	// Replan: instead of handing the configuration in again, the profile the entity names is replaced in the open database
+	// (AddProfile under the same name) after a first successful update, and the same database object plans again
+	Replan bool `json:",omitempty"`
 }
 
 // checkC09API: an entity exists under a profile that accepts it; then the same configuration is handed in again with
@@ -668,6 +672,9 @@ type c09API struct {
 func checkC09API(c c09API) *core.Failure {
 	cc := c09Case{AllowOther: c.AllowOther, Attrs: c.Attrs, Optional: c.Optional, Subject: c.Subject}
 	verdict := c09Oracle(cc)
+	if c.Replan {
+		return checkC09Replan(c, verdict)
+	}
 	var w World
 	var subj []core.RDN
 	for i, k := range c.Subject {
@@ -717,6 +724,71 @@ func checkC09API(c c09API) *core.Failure {
 	case mustAccept:
 		if callErr != nil {
 			return core.Failf("C09/api/valid-subject-rejected", "AddAndSign refused subject %v under profile attrs=%v optional=%v allowOther=%v: %v", c.Subject, c.Attrs, c.Optional, c.AllowOther, callErr)
+		}
+	}
+	return nil
+}
+
+// checkC09Replan: one database object; the entity is generated under a profile without rules; the profile is then replaced
+// under the same name by one with rules; the next plan of the same object judges the entity by the profile as it is now.
+func checkC09Replan(c c09API, verdict int) *core.Failure {
+	var subj []core.RDN
+	for i, k := range c.Subject {
+		subj = append(subj, core.RDN{Key: k, Value: fmt.Sprintf("v%d", i)})
+	}
+	w := World{Ents: []core.Entity{{File: "e0.yaml", Subject: subj, Profile: "rules"}}, Profs: []core.Profile{{File: "rules.yaml", Name: "rules"}}}
+	d := w.Dir()
+	d.Tick(10)
+	dbase := filesystem.NewFilesystemDatabase(&core.MemFS{D: d})
+	if err := dbase.Open(); err != nil {
+		return core.Failf("C09/api/setup", "open: %v", err)
+	}
+	defer dbase.Close()
+	var pan any
+	var err1, err2 error
+	var plan2 db.ChangeList
+	var before []byte
+	func() {
+		defer func() { pan = recover() }()
+		var plan db.ChangeList
+		if plan, err1 = db.PlanBulkUpdate(dbase, db.UpdateStrategy(core.FlagDefault)); err1 == nil {
+			_, err1 = db.BulkUpdate(dbase, plan)
+		}
+		if err1 != nil {
+			return
+		}
+		if f := d.Files["e0.pem"]; f != nil {
+			before = append([]byte(nil), f.Data...)
+		}
+		strict := core.Profile{Name: "rules", HasAttrs: true, AllowOther: core.BoolP(c.AllowOther)}
+		for i, a := range c.Attrs {
+			strict.Attrs = append(strict.Attrs, core.ProfileAttr{Attribute: a, Optional: core.BoolP(c.Optional[i])})
+		}
+		if err1 = dbase.AddProfile(apiProfiles([]core.Profile{strict})[0]); err1 != nil {
+			return
+		}
+		if plan2, err2 = db.PlanBulkUpdate(dbase, db.UpdateStrategy(core.FlagAll)); err2 == nil {
+			_, err2 = db.BulkUpdate(dbase, plan2)
+		}
+	}()
+	if pan != nil {
+		return core.Failf("C09/panic", "gopki panicked: %v", pan)
+	}
+	if err1 != nil || before == nil {
+		return core.Failf("C09/api/setup", "first update under the profile without rules: %v", err1)
+	}
+	after := d.Files["e0.pem"]
+	switch verdict {
+	case mustReject:
+		if err2 == nil {
+			return core.Failf("C09/api/replan-invalid-subject-accepted", "the profile was replaced by attrs=%v optional=%v allowOther=%v, which must reject subject %v, yet the same database object planned and generated again without error", c.Attrs, c.Optional, c.AllowOther, c.Subject)
+		}
+		if after == nil || !bytes.Equal(after.Data, before) {
+			return core.Failf("C09/api/reject-wrote-files", "the update was refused (%v) but the artifact changed", err2)
+		}
+	case mustAccept:
+		if err2 != nil {
+			return core.Failf("C09/api/replan-valid-subject-rejected", "subject %v under attrs=%v optional=%v allowOther=%v: %v", c.Subject, c.Attrs, c.Optional, c.AllowOther, err2)
 		}
 	}
 	return nil
